@@ -16,7 +16,8 @@ import (
 func init() {
 	register(&RuleSet{
 		ID: "C11",
-		Explanation: "In sign/gcsca (the only storage-backed authority; localca wraps it). Storage writes are calls of storage/ops.WriteFile (and direct Storage.Writer invokes); a write is the manifest write when its object-name operand is the constant gcsca.ManifestObjectName. " +
+		Explanation: "R9 the local storage back end's object writer opens files truncating (a rewritten manifest keeps no stale tail). " +
+			"In sign/gcsca (the only storage-backed authority; localca wraps it). Storage writes are calls of storage/ops.WriteFile (and direct Storage.Writer invokes); a write is the manifest write when its object-name operand is the constant gcsca.ManifestObjectName. " +
 			"R1 (ESP on Finalize): no object write after the manifest write on any path. R2 (ESP): the manifest write is unreachable after a failed object write / failed upload step. " +
 			"R3 (who-may-call): storage writes in gcsca occur only in the no-clobber gate (the function that invokes Storage.Exists) and the manifest writer; the manifest writer is reachable only from Finalize; packages rotate and testing/nonprod/localca perform no storage writes of their own. " +
 			"R4 (ESP + slice): manifest.Entries is extended only after the gate returned nil for the object name recorded in the entry. " +
@@ -33,6 +34,20 @@ func init() {
 }
 
 func runC11(c *Ctx) {
+	// R9: the local storage back end replaces an object wholly when it is rewritten (a shorter manifest over a longer
+	// one keeps no stale tail): file-opening primitives in the closure of its Writer are truncating.
+	{
+		var impls []*ssa.Function
+		for _, f := range c.P.RepoFunctions() {
+			if c.isTestFunc(f) || load.RelPkg(f) != "storage/local" || f.Name() != "Writer" || f.Signature.Recv() == nil || f.Blocks == nil || f.Parent() != nil || f.Synthetic != "" {
+				continue
+			}
+			impls = append(impls, f)
+		}
+		nOpen := c.wholeFileWrites("R9", impls)
+		c.S.Floor("R9", "object writers of the local storage back end", 1, len(impls))
+		c.S.Floor("R9", "file-opening calls in their closures", 1, nOpen)
+	}
 	// R8 = C10.R5: the callers keep one transaction per operation — rotate.Bootstrap finalizes only after both
 	// certificates were signed (a Finalize between them publishes a manifest that names a primary signing key whose
 	// certificate does not exist yet).
